@@ -38,6 +38,8 @@ for k, v in merged('/verif/mutants/results-seeded-round4.txt').items():
     seed[k] = v
 for k, v in merged('/verif/mutants/results-seeded-round5.txt').items():
     seed[k] = v
+for k, v in merged('/verif/mutants/results-seeded-round6.txt').items():
+    seed[k] = v
 
 out = []
 out.append("## Appendix D. Sensitivity results: own mutants and independently seeded changes\n")
@@ -67,12 +69,12 @@ out.append(f"{n_caught} of {n_mut} mutants are reported by at least one check. T
 out.append("Mutants that were first **missed** and led to a stronger generator or oracle (then re-run): `c14-ownership-compare-former-too` (the ownership-transfer message now varies its code-id fields), `c13-accept-two-dangling` (router worlds now donate to the router, so a disconnected hop can execute), `c13-last-hop-drops-recipient-on-long-routes` (written after `c13-intermediate-hop-carries-to` proved equivalent).\n")
 
 # ---- seeded -----------------------------------------------------------------------------------------
-out.append("### D.2 Independently seeded changes (`seeded/<ID>/`, `<ID>b` ... `<ID>e`: five per property)\n")
+out.append("### D.2 Independently seeded changes (`seeded/<ID>/`, `<ID>b` ... `<ID>f`: five per property, six for the eighteen contract-level ones)\n")
 out.append("Each change was produced by a fresh sub-agent that was given only the text of one property and its own scratch git worktree of `/repo` (nothing from `/verif`), and asked for a change that breaks the property, still compiles, keeps the existing 101 tests green and needs something specific to manifest, plus a demonstration test. Round 2 (`<ID>b`) and round 3 (`<ID>c`) agents were additionally told in one line each what the earlier changes for the same property were, and asked for something materially different. Round 4 (`<ID>d`) agents additionally got a *code location* to use, chosen among the places no earlier change had touched (`seeded/_prompts/hints_d1.json`, `hints_d2.json`; the prompt generator is `seeded/_prompts/gen_task.py`). Round 5 (`<ID>e`) agents got a *style* of slip instead (error-handling default, off-by-one, stale state, asset-order or asset-kind confusion, optional-parameter default; `hints_e1.json`, `hints_e2.json`). Every change was confirmed by `seeded/verify.sh` (demonstration passes on the clean tree, fails with the patch; the 101 existing tests pass with the patch alone) before it was kept.\n")
 out.append("| Seeded change | What it needs to manifest | Reported by (time) | Also run, not reporting it | Note |")
 out.append("|---|---|---|---|---|")
 ids = sorted(d for d in os.listdir('/verif/seeded') if os.path.isdir(f'/verif/seeded/{d}') and not d.startswith('_'))
-n_seed = n_seed_caught = 0
+n_seed = n_seed_caught = n_seed_own = 0
 for k in ids:
     m = json.load(open(f'/verif/seeded/{k}/meta.json'))
     rs = seed.get(f'/verif/seeded/{k}/patch.diff', [])
@@ -81,6 +83,8 @@ for k in ids:
     miss = [c for c, rc, t, _ in rs if rc == 0]
     if hit:
         n_seed_caught += 1
+    if any(c == k[:3] and rc == 1 for c, rc, t, _ in rs):
+        n_seed_own += 1
     needs = short(m.get('needs_to_manifest', '').replace('\n', ' '), 230)
     note = ''
     oc = m.get('outcome', '')
@@ -88,7 +92,7 @@ for k in ids:
         note = short(oc.replace('\n', ' '), 330)
     out.append(f"| `{k}` | {needs} | {', '.join(hit) or '-'} | {', '.join(miss) or '-'} | {note} |")
 out.append("")
-out.append(f"{n_seed_caught} of {n_seed} seeded changes are reported by the check of the property they break (final machinery). Twelve of them were first missed, or not detected for an infrastructure reason, and each miss was answered by widening a generator or correcting an oracle - never by special-casing the change:\n")
+out.append(f"{n_seed_caught} of {n_seed} seeded changes are reported by at least one check, {n_seed_own} of them by the check of the very property they were written to break (final machinery, quick tier). The two that only neighbouring checks report are `C01f` (C02 and C03 report it; C01's oracle would, but its generator draws the needed shape too rarely) and `C09f` (C05 and C03 report it; no named native amount differs from the attached funds, so C09's statement is arguably intact). Fifteen changes were first missed, or not detected for an infrastructure reason, and each miss was answered by widening a generator or correcting an oracle - never by special-casing the change:\n")
 out.append("""* `C01` (swap refunds surplus coins it had priced on): the swap generators never attached a coin of the pair's *other* native denom of reserve-like size -> `extra_ask_16` class in every swap profile.
 * `C14` (router `Receive` re-enters `execute` with the envelope's sender): the caller matrix only sent internal messages directly -> every pair/router message is also smuggled through the public cw20 `Receive` entry with a spoofed envelope sender.
 * `C07b` (cw20-entered route without `to` pays the token contract): the C07 frame wrongly allowed the addressed token contract's own balances to change -> removed.
@@ -101,9 +105,13 @@ out.append("""* `C01` (swap refunds surplus coins it had priced on): the swap ge
 * `C16d` (creation reuses decimals cached from the previous creation): reported by C17 but not by C16, whose histories had no re-registration between creations -> added as an operation kind of C16.
 * `C19d` (listing cursor folded to lower case): every factory-world denom was lower case -> the denom pool holds three names with upper-case letters.
 * `C14e` (the router's self-only check compares the two addresses only over their common length): no role's address *extended* an authorised sender -> every cell now also probes addresses that extend or shorten an authorised sender of that cell. (An upper-cased variant was added too and immediately withdrawn: it alarmed on the unchanged tree, because the chain API - cosmwasm's `MockApi`, like bech32 - treats the casings of one address as the same account. That was an error of the harness, not of the factory.)
+* `C07f` (withdraw hook accepted from an asset token, whose total supply then serves as the LP supply): every world gave each holder 2^122 of every token, so any proportion of a token's supply was zero -> holders' balances are now drawn from {2^122, 2^64, 2^36}, and the forged-call generator delivers the withdraw hook through an asset token's `Send`.
+* `C15f` (the 128-bit to 256-bit decimal conversion wraps the whole part modulo 2^64): tolerances, spread limits and belief prices never exceeded about 10^3 -> the guard generators of C10 and C15 span the full 128-bit decimal and include whole parts that are multiples of 2^64.
+* `C19f` (MigratePair re-keys and thereby deletes the registry entry of a registered pair): no factory-world history migrated a pair -> MigratePair is an operation kind of C16 and part of C19's pre-listing administration.
+* Three round-6 changes (`C01f`, `C02f`, `C03f`) independently made asset equality ignore the asset kind, and `C04f` relied on a holder burning LP directly at the token contract - shapes that were only in the generators because earlier rounds had put them there (denoms spelled like token addresses after `C17c`/`C12c`; the direct LP burn was added minutes before `C04f` arrived).
 * own mutants of C13 / C14, see D.1.
 
-What the seeded changes taught about this technique here: the oracles were never the weak point (every miss was a *generator* blind spot: an input shape, an entry path, an operation kind or an identifier alphabet that was not produced), which is why later rounds - asked to differ from the earlier ones, and in round 4 steered to untouched code locations - kept being valuable: the miss rate was 2/20, 4/20 (one of them infrastructure), 2/20, 3/20 and 1/20 in rounds 1 to 5, and two of the three round-4 misses were still reported by the check of a *neighbouring* property (C13 for `C02d`, C17 for `C16d`).
+What the seeded changes taught about this technique here: the oracles were never the weak point (every miss was a *generator* blind spot: an input shape, an entry path, an operation kind or an identifier alphabet that was not produced), which is why later rounds - asked to differ from the earlier ones, and in round 4 steered to untouched code locations - kept being valuable: the miss rate was 2/20, 4/20 (one of them infrastructure), 2/20, 3/20, 1/20 and 5/18 in rounds 1 to 6 (the cross-contract round was the most productive one since round 2), and two of the three round-4 misses were still reported by the check of a *neighbouring* property (C13 for `C02d`, C17 for `C16d`).
 """)
 text = "\n".join(out)
 s = open('/verif/DESIGN.md').read()
